@@ -114,26 +114,56 @@ def run(ctx, ck):
         aid = pfl.node_id_of(adds[0])
         ok = pfl.cfg.must_pass(pfl.cfg.exit.id, {aid}) and norm(adds[0].func.value) in ('self.container', 'container')
     ck.ob('R-PAIR.container', pi.qual + '|add-once', ok, pi.loc(), 'Pulse.__init__ calls container.add(self) once on every path')
+    # add(): the pulse gets the number of pulses added before it as its index, then joins the list - decided on the
+    # symbolic walk, for both ways of keeping the count (a counter attribute incremented by add, or the length of
+    # the list itself)
+    from ..symx import SymExec
     ad = m.func('pulse.Pulse_Container.add')
-    afl = ctx.flow(ad)
-    body = [norm(s) for s in ad.body() if not isinstance(s, ast.Assert)]
-    st_idx = [i for i, t in enumerate(body) if t == 'pulse.idx = self.pulse_idx']
-    st_inc = [i for i, t in enumerate(body) if t in ('self.pulse_idx += 1', 'self.pulse_idx = self.pulse_idx + 1')]
-    st_app = [i for i, t in enumerate(body) if t == 'self.pulses.append(pulse)']
-    ok = len(st_idx) == 1 and len(st_inc) == 1 and len(st_app) == 1 and st_idx[0] < st_inc[0] and len(body) == 3
-    ck.ob('R-PAIR.container', ad.qual + '|store-then-increment', ok, ad.loc(), 'add(): %s' % body)
+    apaths = [p_ for p_ in SymExec(ctx, ad, effects=True, depth=2).run() if p_.end != 'raise']
+    prop = m.resolve_method('Pulse_Container', 'pulse_idx')
+    counter_is_len = prop is not None and prop.kind == 'property' and \
+        [norm(s_) for s_ in prop.body()] == ['return len(self.pulses)']
+    okadd = bool(apaths)
+    shapes_ = []
+    for p_ in apaths:
+        ev_idx = [(i_, ev) for i_, ev in enumerate(p_.events) if ev[0] == 'store' and ev[1] == 'pulse.idx']
+        ev_app = [(i_, ev) for i_, ev in enumerate(p_.events) if ev[0] == 'call' and norm(ev[1]) == 'self.pulses.append(pulse)']
+        ev_cnt = [(i_, ev) for i_, ev in enumerate(p_.events) if ev[0] == 'store' and ev[1] == 'self.pulse_idx']
+        shapes_.append(([norm(ev[2]) for i_, ev in ev_idx], len(ev_app), [norm(ev[2]) for i_, ev in ev_cnt]))
+        good = len(ev_idx) == 1 and len(ev_app) == 1
+        if good:
+            val = norm(ev_idx[0][1][2])
+            if val == 'len(self.pulses)':
+                good = ev_idx[0][0] < ev_app[0][0] and not ev_cnt          # the length before the pulse joins
+            elif val == 'self.pulse_idx' and counter_is_len:
+                good = ev_idx[0][0] < ev_app[0][0] and not ev_cnt
+            elif val == 'self.pulse_idx':
+                good = len(ev_cnt) == 1 and norm(ev_cnt[0][1][2]) in ('self.pulse_idx + 1', '1 + self.pulse_idx')
+            else:
+                good = False
+        okadd = okadd and good
+    ck.ob('R-PAIR.container', ad.qual + '|store-then-increment', okadd, ad.loc(),
+          'add(): index = number of pulses added before, then the pulse joins the list: %s' % shapes_[:2])
     for cls, attr, allowed in (('Pulse', 'idx', {'pulse.Pulse_Container.add'}),
                                ('Pulse_Container', 'pulse_idx', {'pulse.Pulse_Container.add',
                                                                  'pulse.Pulse_Container.__init__'})):
         writers = sorted({e.func.qual for q, es in prog.effects.items() for e in es
                           if e.attr == attr and e.mode != 'read' and e.cls in (cls, '?')})
-        ck.ob('R-PAIR.container', 'writers|%s.%s' % (cls, attr), set(writers) <= allowed and bool(writers),
-              ad.loc(), 'writers of %s.%s: %s' % (cls, attr, writers))
+        okw = set(writers) <= allowed and (bool(writers) or (attr == 'pulse_idx' and counter_is_len))
+        ck.ob('R-PAIR.container', 'writers|%s.%s' % (cls, attr), okw,
+              ad.loc(), 'writers of %s.%s: %s%s' % (cls, attr, writers, ' (a property: the length of the list)' if
+                                                   attr == 'pulse_idx' and counter_is_len else ''))
     ini = m.func('pulse.Pulse_Container.__init__')
-    ok = any(norm(s) == 'self.pulse_idx = 0' for s in ini.body())
     ln = m.func('pulse.Pulse_Container.__len__')
-    ok = ok and [norm(s) for s in ln.body()] == ['return self.pulse_idx']
-    ck.ob('R-PAIR.container', 'counter-init-and-len', ok, ini.loc(), 'pulse_idx starts at 0; len() returns it')
+    lnb = [norm(s_) for s_ in ln.body()]
+    if counter_is_len:
+        ok = lnb in (['return self.pulse_idx'], ['return len(self.pulses)']) and \
+            any(norm(s_) in ('self.pulses = []', 'self.pulses = list()') for s_ in ast.walk(ini.node) if isinstance(s_, ast.Assign)) or \
+            (lnb in (['return self.pulse_idx'], ['return len(self.pulses)']) and
+             any(isinstance(c_, ast.Call) and norm(c_.func) == 'self.reset' for c_ in ast.walk(ini.node)))
+    else:
+        ok = any(norm(s) == 'self.pulse_idx = 0' for s in ini.body()) and lnb == ['return self.pulse_idx']
+    ck.ob('R-PAIR.container', 'counter-init-and-len', ok, ini.loc(), 'the count starts at 0; len() returns it')
 
     # ---------------------------------------------------------------- D2
     bs = sorted(set((x[0], x[1], x[2], str(x[3]), str(x[4])) for x in bad_seq), key=str)
